@@ -38,6 +38,13 @@ pub trait WitnessWrite<F: Field> {
     where
         F: RichField,
     {
+        if ct.0.len() != value.0.len() {
+            return Err(anyhow!(
+                "Merkle cap has {} entries, but its target has {}",
+                value.0.len(),
+                ct.0.len()
+            ));
+        }
         for (ht, h) in ct.0.iter().zip(&value.0) {
             self.set_hash_target(*ht, *h)?;
         }
@@ -72,7 +79,13 @@ pub trait WitnessWrite<F: Field> {
     where
         F: RichField + Extendable<D>,
     {
-        debug_assert_eq!(ets.len(), values.len());
+        if ets.len() != values.len() {
+            return Err(anyhow!(
+                "{} extension values given for {} extension targets",
+                values.len(),
+                ets.len()
+            ));
+        }
         for (&et, &v) in zip(ets, values) {
             self.set_extension_target(et, v)?;
         }
@@ -122,6 +135,15 @@ pub trait WitnessWrite<F: Field> {
         F: RichField + Extendable<D>,
         C::Hasher: AlgebraicHasher<F>,
     {
+        // Unlike the variable-length STARK case served by `set_fri_proof_target`, the shape of a
+        // PLONK proof is fixed by the circuit: a shorter final polynomial must not be zero-padded.
+        if proof_target.opening_proof.final_poly.0.len() != proof.opening_proof.final_poly.len() {
+            return Err(anyhow!(
+                "final polynomial has {} coefficients, but its target has {}",
+                proof.opening_proof.final_poly.len(),
+                proof_target.opening_proof.final_poly.0.len()
+            ));
+        }
         self.set_cap_target(&proof_target.wires_cap, &proof.wires_cap)?;
         self.set_cap_target(
             &proof_target.plonk_zs_partial_products_cap,
